@@ -686,6 +686,18 @@ func genGE(cfg *config, r *rng, i int, s *sink) string {
 			geodesic.WGS84.Direct(latC, lonC, az2, (1-fb)*lb, &b2la, &b2lo, nil)
 			s.count("ge.ix.pole_end")
 		}
+		if r.chance(1, 15) {
+			// a short east-west segment whose ends both lie on the 45th parallel to the last bit, crossed
+			// half way by a meridian segment (between its ends the geodesic leaves the parallel by
+			// d^2 tan(lat) / 8R: 0.05 mm for 50 m) — recorded finding: the geodesic library at latitude 45
+			latC = pick(r, []float64{45, -45})
+			e := (10 + r.float01()*40) / 78850 // degrees of longitude for 10..50 m at latitude 45
+			dn := (20 + r.float01()*400) / 111130
+			b1la, b1lo, b2la, b2lo = latC, lonC-e, latC, lonC+e
+			a1la, a1lo, a2la, a2lo = latC-dn*(0.2+r.float01()*0.6), lonC, latC+dn*(0.2+r.float01()*0.6), lonC
+			insA, insB = true, true
+			s.count("ge.ix.parallel45")
+		}
 		if math.Abs(a1lo-a2lo) > 180 || math.Abs(b1lo-b2lo) > 180 || math.Abs(a1lo-b1lo) > 180 {
 			// straddles the 180th meridian: outside the property
 			return "sd " + hexFloats(10, 20)
@@ -748,5 +760,7 @@ func corpusGE(cfg *config) []string {
 		"rt " + hexFloats(10, 20, 30, 65, 5.2e6),
 		"tr " + hexFloats(48, 2, 1e6, 1e6),
 		"tr " + hexFloats(10, 20, 5e5, -5e5),
+		// … and for a segment whose ends both lie on the 45th parallel
+		"ix " + hexFloats(44.9995, 7, 45.0005, 7, 45, 6.9995, 45, 7.0005) + " " + hexFloats(45, 7) + " 1 1",
 	}...)
 }
